@@ -10,6 +10,7 @@ Record case := mkTd {
   c_flood : Z;              (* solicitations queued at the fault instant *)
   c_outcome : observed;
   c_delay : Z;              (* virtual ns from the fault to the re-dial / return *)
+  c_slack : Z;              (* latency the fake connection adds to a read in progress (slow-listener runs) *)
   c_io_after : Z;           (* ReadFrom + WriteTo calls on the old connection after the re-dial / return *)
   c_canary : bool;          (* after the reaction the task still serves (re-dialled / continued) or is fully stopped (returned) *)
   c_leak : bool             (* goroutines left blocked at the end *)
@@ -19,7 +20,7 @@ Definition obs_eqb (o : observed) (r : reaction) : bool :=
   match o, r with ORedial, Redial | OReturnErr, ReturnErr | OContinue, Continue => true | _, _ => false end.
 
 Definition agree (c : case) : bool :=
-  obs_eqb (c_outcome c) (react (c_fault c)) && (c_delay c =? react_delay (c_fault c)).
+  obs_eqb (c_outcome c) (react (c_fault c)) && (react_delay (c_fault c) <=? c_delay c) && (c_delay c <=? react_delay (c_fault c) + c_slack c).
 
 (* specification from the property text: recoverable causes (link change, non-permission system
    call error) -> re-established; otherwise ends with a reported error; promptly (within the
@@ -30,7 +31,7 @@ Definition harmless (f : fault) : bool := match f with FWatchClosed => true | _ 
 
 Definition holds (c : case) : bool :=
   negb (c_leak c) && (c_io_after c =? 0) && c_canary c &&
-  (0 <=? c_delay c) && (c_delay c <=? 200000000) &&
+  (0 <=? c_delay c) && (c_delay c <=? 200000000 + c_slack c) &&
   match c_outcome c with
   | ORedial => recoverable (c_fault c)
   | OReturnErr => negb (recoverable (c_fault c)) && negb (harmless (c_fault c))
